@@ -28,6 +28,8 @@ MENUS = {
     "two-unnamed": {"sum": ["x1", "x2"], "max": ["x2", "x1"]},
     "sum-mean-unnamed": {"sum": ["x1"], "mean": ["x2"], "count": ["x2"]},
     "apply": {"sum": ["v"], "apply": ["v"]},
+    "two-same-name": {"sum": ["n1", "n2"], "mean": ["n2"], "min": ["n1"]},      # two DIFFERENT vectors that carry the same name
+    "lshift-built": {"count": ["xl"], "sum": ["xl"], "max": ["xl"]},             # a value column produced by concatenation (<<)
 }
 
 
@@ -40,11 +42,11 @@ def x2vals(vals):
 
 
 def source_values(src, vals):
-    if src in ("v", "x1"):
+    if src in ("v", "x1", "n1", "xl"):
         return list(vals)
     if src == "w":
         return wvals(vals)
-    if src == "x2":
+    if src in ("x2", "n2"):
         return x2vals(vals)
     raise KeyError(src)
 
@@ -139,7 +141,14 @@ def build_kwargs(t, vals, menu, form, calls):
         if s in ("v", "w"):
             return s if form == "name" else t[s]
         if s not in cache:
-            cache[s] = Vector(source_values(s, vals))
+            data = source_values(s, vals)
+            if s in ("n1", "n2"):
+                cache[s] = Vector(data, name="dup")
+            elif s == "xl":
+                h = len(data) // 2
+                cache[s] = (Vector(data[:h]) << Vector(data[h:])) if data[:h] else Vector(data)
+            else:
+                cache[s] = Vector(data)
         return cache[s]
 
     kw = {}
@@ -166,8 +175,10 @@ def plan_units(thorough):
     units = []
     if not thorough:
         for kind in KEY_ALPHA:
-            for n in range(0, 4):
+            for n in range(0, 3):
                 units.append((kind, 1, n, None, "full"))
+            for first in KEY_ALPHA[kind]:
+                units.append((kind, 1, 3, (first,), "full"))
         for first in KEY_ALPHA["str"]:
             units.append(("str", 1, 4, (first,), "core"))
         for n in range(0, 3):
@@ -214,6 +225,8 @@ def menus_for(nkeys, n, form, level="full"):
         return ["all6", "apply", "two-unnamed"] if form == "name" else []
     if nkeys == 1:
         if form == "name":
+            if n >= 4:
+                return [m for m in MENUS if m not in ("two-same-name", "lshift-built", "sum-mean-unnamed", "twice")]
             return list(MENUS)
         return ["all6", "two-unnamed", "apply"]
     return ["all6", "two-cols", "apply"] if form == "name" else ["all6"]
@@ -237,7 +250,7 @@ def py_repro(keys, vals, nkeys, form, menu, method):
         if fn in MENUS[menu]:
             srcs = []
             for s in MENUS[menu][fn]:
-                srcs.append(repr(s) if s in ("v", "w") else f"Vector({source_values(s, vals)!r})")
+                srcs.append(repr(s) if s in ("v", "w") else f"Vector({source_values(s, vals)!r}" + (", name='dup')" if s in ("n1", "n2") else ")"))
             args.append(f"{fn}_over=[{', '.join(srcs)}]")
     if "apply" in MENUS[menu]:
         args.append("apply={'custom': ('v', lambda xs: repr(list(xs)))}")
